@@ -6,6 +6,8 @@ mod error;
 pub mod js_op;
 mod op;
 mod value;
+#[cfg(jsonlogic_rs_verif)]
+pub mod verif;
 
 use error::Error;
 use value::{Evaluated, Parsed};
@@ -84,9 +86,20 @@ pub mod python_iface {
 
 /// Run JSONLogic for the given operation and data.
 ///
+#[cfg(not(jsonlogic_rs_verif))]
 pub fn apply(value: &Value, data: &Value) -> Result<Value, Error> {
     let parsed = Parsed::from_value(&value)?;
     parsed.evaluate(data).map(Value::from)
+}
+
+/// `apply` bracketed by the verification hooks' `call` / `ret` events.
+#[cfg(jsonlogic_rs_verif)]
+pub fn apply(value: &Value, data: &Value) -> Result<Value, Error> {
+    verif::call(value, data);
+    let res = Parsed::from_value(&value)
+        .and_then(|parsed| parsed.evaluate(data).map(Value::from));
+    verif::ret(&res);
+    res
 }
 
 #[cfg(test)]
